@@ -401,4 +401,28 @@ def roundtripV (how : How) : PObj → R PObj
   | .oui o => (roundtripOuiV how o).map .oui
   | .iab o => (roundtripIabV how o).map .iab
 
+/-! #### `hash()` of every kind of object (audit round 2, finding 4)
+
+`hash(x)` is `type(x).__hash__(x)`, and raises TypeError when the class has `__hash__ = None`:
+  * `BaseIP.__hash__` (netaddr/ip/__init__.py:71-75): `hash(self.key())` — `IPAddress`, `IPNetwork`, `IPRange`;
+    `IPGlob` inherits it from `IPRange` (`key()` = version, first, last);
+  * `EUI.__hash__` (netaddr/eui/__init__.py:565-567): `hash((self.version, self._value))`;
+  * `IPSet.__hash__` (netaddr/ip/sets.py:224-231): `raise TypeError('IP sets are unhashable!')`;
+  * `OUI` / `IAB` (netaddr/eui/__init__.py:103, 272) define `__eq__` and no `__hash__`, so Python sets
+    `__hash__ = None` on the class and `hash()` raises TypeError. -/
+
+/-- the tuple `hash()` is applied to, or TypeError (`Err.type_`) for the unhashable kinds -/
+def hashFieldsP : PObj → R PyVal
+  | .addr a => .ok (.tuple (a.key.map .int))
+  | .net n => .ok (.tuple (n.key.map .int))
+  | .rng r => .ok (.tuple (r.key.map .int))
+  | .glob g => .ok (.tuple ((Rng.key ⟨4, g.lo, g.hi⟩).map .int))
+  | .eui e => .ok (.tuple [.int e.ver, .int e.val])
+  | .set _ => .error .type_
+  | .oui _ => .error .type_
+  | .iab _ => .error .type_
+
+/-- `hash(x)`; the tuple hash of CPython is an uninterpreted function `h` of the tuple -/
+def hashOfP (h : PyVal → Int) (x : PObj) : R Int := (hashFieldsP x).map h
+
 end NV.Cmp
